@@ -77,6 +77,37 @@ def shipped_rewirings(ctx, rng, n):
             m = refpat.match(sv)
             if m and not m.group(1):
                 cands.append((name, base, p, sv, targets, m.group(4)))
+    # systematically: every reference position of every importer document -> every imported entity of the kind the
+    # position expects, plus two of other kinds
+    systematic = []
+    for name, base in bases:
+        if not name.startswith("imports:"):
+            continue
+        fn = name[len("imports:"):]
+        try:
+            idoc = json.load(open(os.path.join(ctx.repo_copy, "schemas", fn + ".json")))
+        except Exception:
+            continue
+        by_kind = {}
+        for kind, (coll, af) in kinds.items():
+            for it in (idoc.get(coll) or []):
+                if isinstance(it, dict) and "id" in it:
+                    by_kind.setdefault(kind, []).append("schema:{%s}.%s:%s" % (fn, kind, it["id"]))
+                    if af in it and rng.random() < 0.5:
+                        by_kind[kind].append("schema:{%s}.%s:{%s}" % (fn, kind, it[af]))
+        allq = [t for ts in by_kind.values() for t in ts]
+        for p, sv in strings(base):
+            m = refpat.match(sv)
+            if not m or m.group(1):
+                continue
+            same = by_kind.get(m.group(2), [])[:6]
+            for t in same + (rng.sample(allq, min(2, len(allq))) if allq else []):
+                d = copy.deepcopy(base)
+                cur = d
+                for k in p[:-1]:
+                    cur = cur[k]
+                cur[p[-1]] = t + m.group(4)
+                systematic.append(({"file": name, "position": [str(x) for x in p], "from": sv, "to": t + m.group(4)}, d))
     rng.shuffle(cands)
     # documents with imports first (few shipped documents have any), then the rest
     cands.sort(key=lambda c: 0 if c[1].get("imports") else 1)
@@ -92,7 +123,7 @@ def shipped_rewirings(ctx, rng, n):
             cur = cur[k]
         cur[p[-1]] = t + path
         docs.append(({"file": name, "position": [str(x) for x in p], "from": sv, "to": t + path}, d))
-    return docs
+    return docs + (systematic if len(systematic) <= 4000 else rng.sample(systematic, 4000))
 
 
 def comparison_grid(ctx):
